@@ -121,6 +121,9 @@ def _fit_cases(dims=(2, 3)):
         out.append(dict(co=co, data="ok"))
     if 2 in dims:
         out.append(dict(co=[None, 0], data="wrong_dim"))
+        # a flat vector (its length a multiple of n_dim, so that it COULD be re-shaped) is not n_dim-dimensional data
+        out.append(dict(co=[None, 0], data="flat_vector"))
+        out.append(dict(co=[None, 0, 1], data="flat_vector"))
     return out
 
 
@@ -151,7 +154,12 @@ class GhmFit(Contract):
         self.model = SObj(GHM, {"n_dim": nd, "distributions": list(self.dists), "conditional_on": list(co), "interval_slicers": [None] * nd}, owner="arg")
         n = cx.sym("n", "int")
         cx.assume(T.ge(n, 3))
-        self.data = sym_array(cx, "data", (n, nd if case["data"] == "ok" else nd + 1))
+        if case["data"] == "flat_vector":
+            rows = cx.sym("rows", "int")
+            cx.assume(T.ge(rows, 2))
+            self.data = sym_array(cx, "data", (T.mul(rows, nd),))
+        else:
+            self.data = sym_array(cx, "data", (n, nd if case["data"] == "ok" else nd + 1))
         self.n = n
         self.fd = [{"method": f"method{i}", "weights": (f"weights{i}" if i % 2 == 0 else None)} for i in range(nd)]
         return [self.model, self.data, list(self.fd)], {}
